@@ -18,19 +18,30 @@
 //
 //	A id v impl                          announcement written by mode.New
 //	W id v msg impl                      impl = O:<hex written by WriteMsg> | E | PANIC
-//	F id v m1,m2,.. ref impl             ref = harness reference framing, impl = bytes the real writer sent over TCP
+//	F id v m1,m2,.. ref impl class       ref = harness reference framing, impl = bytes the real writer sent over TCP
+//	                                     (class transport-writemsg: m_i are unencrypted envelopes sent through transport.WriteMsg)
 //	R id stream sizes impl expect class  impl/expect = <A|I|->|<n>:<m1,..>|<EOF|OTHER>   expect "?" if not a valid stream, "=" if equal to impl
-//	T id v stream sizes impl expect class announce   impl/expect = <n>:<C<dec>|D<hex>,..>|<EOF|OTHER>
+//	T id v stream sizes impl expect class announce unparsed   impl/expect = <n>:<C<dec>|D<hex>|P,..>|<EOF|OTHER>
+//	                                     (P = frame read, payload refused by the message parser; unparsed = those payloads)
+//	H id v n impl ref                    WriteMsg of an n-byte zero message into a counting connection: O:<header> | E
+//	B id v n1,n2,.. impl expect class    messages up to 2^31 bytes end to end, payloads checked against a pattern
+//
+// side file <cases-out>.extra.json: hostile length fields (child processes under RLIMIT_AS), read deadline /
+// cancellation scenarios, cases that could not be segmented (then exit 4)
 package main
 
 import (
+	"bufio"
 	"context"
 	"encoding/binary"
+	"encoding/json"
 	"fmt"
 	"io"
 	"net"
 	"os"
+	"os/exec"
 	"runtime"
+	"runtime/metrics"
 	"sort"
 	"strconv"
 	"strings"
@@ -39,6 +50,7 @@ import (
 	"time"
 	"unsafe"
 
+	"github.com/pkg/errors"
 	"github.com/xelaj/mtproto/internal/mode"
 	"github.com/xelaj/mtproto/internal/mtproto/messages"
 	"github.com/xelaj/mtproto/internal/transport"
@@ -178,6 +190,8 @@ type peer struct {
 	cur      string
 	timeouts int // barriers that gave up (segmentation of that case not guaranteed)
 	barriers int
+	giveUp   time.Duration // how long one barrier waits (1 s in the parallel phase, longer when a case is retried alone)
+	caseFail int           // barriers that gave up during the current case
 }
 
 func newPeer() *peer {
@@ -187,7 +201,13 @@ func newPeer() *peer {
 		os.Exit(3)
 	}
 	a := ln.Addr().(*net.TCPAddr)
-	return &peer{ln: ln, addr: a.String(), port: a.Port}
+	p := &peer{ln: ln, addr: a.String(), port: a.Port, giveUp: time.Second}
+	// test hooks of the harness itself: C08_GIVEUP_US shortens the give-up of the parallel phase (forces second
+	// passes), C08_NOFD=1 hides the reader's socket (forces UNSEGMENTED -> exit 4)
+	if us, err := strconv.Atoi(os.Getenv("C08_GIVEUP_US")); err == nil && us > 0 {
+		p.giveUp = time.Duration(us) * time.Microsecond
+	}
+	return p
 }
 
 func (p *peer) accept() *net.TCPConn {
@@ -206,6 +226,9 @@ func (p *peer) accept() *net.TCPConn {
 // File descriptor numbers are process wide, so the harness can ask the kernel about that socket
 // (ioctl SIOCINQ) without touching the object that owns it.
 func (p *peer) readerFD(rport int) int {
+	if os.Getenv("C08_NOFD") != "" {
+		return -1
+	}
 	ents, err := os.ReadDir("/proc/self/fd")
 	if err != nil {
 		return -1
@@ -246,22 +269,24 @@ const (
 )
 
 // barrier waits until all bytes written to srv were acknowledged (SIOCOUTQ of srv = 0) and consumed by
-// the application on the other end (SIOCINQ of its socket = 0).  Gives up after 1 s (counted) or when
+// the application on the other end (SIOCINQ of its socket = 0).  Gives up after p.giveUp (counted) or when
 // stop is closed.
 func (p *peer) barrier(srv *net.TCPConn, rfd int, stop <-chan struct{}) bool {
 	p.barriers++
 	if rfd < 0 {
 		// the reader's socket was not found (no /proc?): fall back to a pause; counted as not guaranteed
 		p.timeouts++
+		p.caseFail++
 		time.Sleep(100 * time.Microsecond)
 		return false
 	}
 	raw, err := srv.SyscallConn()
 	if err != nil {
 		p.timeouts++
+		p.caseFail++
 		return false
 	}
-	deadline := time.Now().Add(time.Second)
+	deadline := time.Now().Add(p.giveUp)
 	for i := 0; ; i++ {
 		tx, ok1 := 0, false
 		raw.Control(func(fd uintptr) { tx, ok1 = ioctlInt(int(fd), siocoutq) })
@@ -277,6 +302,7 @@ func (p *peer) barrier(srv *net.TCPConn, rfd int, stop <-chan struct{}) bool {
 		if i > 200 {
 			if time.Now().After(deadline) {
 				p.timeouts++
+				p.caseFail++
 				if os.Getenv("C08_DEBUG") != "" {
 					fmt.Fprintf(os.Stderr, "barrier timeout: tx=%d rx=%d ok=%v,%v %s\n", tx, rx, ok1, ok2, p.cur)
 				}
@@ -322,7 +348,11 @@ func errKind(err error) string {
 	return "OTHER"
 }
 
+// hangScale multiplies every time budget (4 while a HANG verdict is being confirmed)
+var hangScale = 1
+
 func withTimeout(d time.Duration, f func() string) string {
+	d *= time.Duration(hangScale)
 	ch := make(chan string, 1)
 	go func() {
 		var res string
@@ -392,6 +422,23 @@ func (p *peer) runR(stream []byte, cuts []int, useBarrier bool) string {
 	return res
 }
 
+// parserRejected: transport.ReadMsg failed, but not because reading from the connection failed.
+// Only used to decide whether the harness may call ReadMsg again (after a failed read the go-dry reader
+// never returns any more); the compared observable is just "payload rejected by the parser".
+func parserRejected(err error) bool {
+	if err == io.EOF || err == context.Canceled {
+		return false
+	}
+	c := errors.Cause(err)
+	if c == io.EOF || c == io.ErrUnexpectedEOF || c == context.Canceled {
+		return false
+	}
+	if _, ok := c.(net.Error); ok {
+		return false
+	}
+	return !strings.Contains(err.Error(), "reading message")
+}
+
 type informator struct{}
 
 func (informator) GetSessionID() int64  { return 1 }
@@ -438,6 +485,10 @@ func (p *peer) runT(v string, stream []byte, cuts []int, useBarrier bool) (strin
 				}
 			} else if code, ok := err.(transport.ErrCode); ok {
 				evs = append(evs, "C"+strconv.Itoa(int(code)))
+			} else if parserRejected(err) {
+				// the frame was read, the message parser behind it refused the payload (outside C08): the
+				// connection must still be positioned behind that frame, which the following events show
+				evs = append(evs, "P")
 			} else {
 				return fmt.Sprintf("%d:%s|%s", len(evs), strings.Join(evs, ","), errKind(err))
 			}
@@ -488,6 +539,550 @@ func (p *peer) runF(v string, msgs [][]byte) string {
 		return res
 	}
 	return vc.Hex(b)
+}
+
+// runFT: the real writer through transport.WriteMsg: transport.NewTransport (announces) + WriteMsg of an
+// unencrypted message per envelope + Close; the peer records every byte until FIN.
+func (p *peer) runFT(v string, envs [][]byte) string {
+	ctx, cancel := context.WithCancel(context.Background())
+	defer cancel()
+	t, err := transport.NewTransport(informator{}, transport.TCPConnConfig{Ctx: ctx, Host: p.addr}, variantOf(v))
+	if err != nil {
+		return "DIAL-ERROR"
+	}
+	srv := p.accept()
+	got := make(chan []byte, 1)
+	go func() {
+		srv.SetReadDeadline(time.Now().Add(60 * time.Second))
+		b, _ := io.ReadAll(srv)
+		got <- b
+	}()
+	res := withTimeout(60*time.Second, func() string {
+		for _, e := range envs {
+			msg := &messages.Unencrypted{MsgID: int64(binary.LittleEndian.Uint64(e[8:16])), Msg: e[20:]}
+			if err := t.WriteMsg(msg, false); err != nil {
+				return "E"
+			}
+		}
+		return ""
+	})
+	t.Close()
+	b := <-got
+	kill(srv)
+	if res != "" {
+		return res
+	}
+	return vc.Hex(b)
+}
+
+// ---- very long messages: nothing is kept as hex, payloads are a position dependent pattern
+
+// pattern fills b with the bytes [off, off+len(b)) of the payload pattern of a message (seed = its length)
+func pattern(b []byte, off int64, seed uint64) {
+	i := 0
+	for ; i < len(b) && (off+int64(i))%8 != 0; i++ {
+		w := (uint64(off+int64(i))/8 + seed) * 0x9e3779b97f4a7c15
+		b[i] = byte(w >> (8 * (uint64(off+int64(i)) % 8)))
+	}
+	k := uint64(off+int64(i))/8 + seed
+	for ; i+8 <= len(b); i += 8 {
+		binary.LittleEndian.PutUint64(b[i:], k*0x9e3779b97f4a7c15)
+		k++
+	}
+	for ; i < len(b); i++ {
+		w := (uint64(off+int64(i))/8 + seed) * 0x9e3779b97f4a7c15
+		b[i] = byte(w >> (8 * (uint64(off+int64(i)) % 8)))
+	}
+}
+
+// patternOK checks b against the pattern, block-wise (no second copy of a 2 GiB message)
+func patternOK(b []byte, off int64, seed uint64) bool {
+	tmp := make([]byte, 1<<16)
+	for len(b) > 0 {
+		n := len(tmp)
+		if n > len(b) {
+			n = len(b)
+		}
+		pattern(tmp[:n], off, seed)
+		if string(tmp[:n]) != string(b[:n]) {
+			return false
+		}
+		b = b[n:]
+		off += int64(n)
+	}
+	return true
+}
+
+// headerSink is the connection of a header-only write case: remembers the first bytes, counts the rest and
+// checks that everything behind the header is the (all-zero) message
+type headerSink struct {
+	first   []byte
+	n       int64
+	nonzero bool
+}
+
+func (c *headerSink) Write(p []byte) (int, error) {
+	if len(c.first) < 24 {
+		k := 24 - len(c.first)
+		if k > len(p) {
+			k = len(p)
+		}
+		c.first = append(c.first, p[:k]...)
+	}
+	if c.n >= 24 && len(p) <= 1<<28 {
+		for _, x := range p {
+			if x != 0 {
+				c.nonzero = true
+				break
+			}
+		}
+	}
+	c.n += int64(len(p))
+	return len(p), nil
+}
+func (c *headerSink) Read(p []byte) (int, error) { return 0, io.EOF }
+
+// runH: WriteMsg of an n-byte all-zero message into a counting connection: O:<header hex> | E
+func runH(v string, n int64) string {
+	return withTimeout(120*time.Second, func() string {
+		cp := &headerSink{}
+		m, err := mode.New(variantOf(v), cp)
+		if err != nil {
+			return "E"
+		}
+		a := cp.n
+		cp.first = nil
+		cp.n = 0
+		msg := make([]byte, n)
+		if err := m.WriteMsg(msg); err != nil {
+			if cp.n != 0 {
+				return fmt.Sprintf("E-AFTER-WRITING-%d-BYTES", cp.n)
+			}
+			return "E"
+		}
+		_ = a
+		h := cp.n - n
+		if h < 0 || h > 24 {
+			return fmt.Sprintf("O:?:wrote-%d-bytes-for-%d", cp.n, n)
+		}
+		for _, x := range cp.first[h:] {
+			if x != 0 {
+				cp.nonzero = true
+			}
+		}
+		if cp.nonzero {
+			return "O:" + vc.Hex(cp.first[:h]) + ":PAYLOAD-CHANGED"
+		}
+		return "O:" + vc.Hex(cp.first[:h])
+	})
+}
+
+func showBig(v string, lens []int64, ok []bool, end string) string {
+	l := make([]string, len(lens))
+	for i := range lens {
+		st := "ok"
+		if !ok[i] {
+			st = "CHANGED"
+		}
+		l[i] = fmt.Sprintf("len=%d/%s", lens[i], st)
+	}
+	return fmt.Sprintf("%s|%d:%s|%s", v, len(lens), strings.Join(l, ","), end)
+}
+
+// runB: messages of up to 2^31 bytes end to end.  (w) the real writer (NewTCP + mode.New + WriteMsg) sends
+// pattern messages, the peer checks announcement, reference headers and payloads while reading;
+// (r) the peer streams the reference stream in random segments of 1 B .. 256 KiB (with barriers) to the real
+// reader (NewTCP + Detect + ReadMsg until error), every delivered message is checked against the pattern.
+func (p *peer) runB(v string, lens []int64, r *vc.Rng) string {
+	w := func() string {
+		ctx, cancel := context.WithCancel(context.Background())
+		defer cancel()
+		c, err := transport.NewTCP(transport.TCPConnConfig{Ctx: ctx, Host: p.addr})
+		if err != nil {
+			return "DIAL-ERROR"
+		}
+		srv := p.accept()
+		verdict := make(chan string, 1)
+		go func() {
+			srv.SetReadDeadline(time.Now().Add(300 * time.Second))
+			rd := bufio.NewReaderSize(srv, 1<<20)
+			want := refAnnounce(v)
+			got := make([]byte, len(want))
+			if _, err := io.ReadFull(rd, got); err != nil || string(got) != string(want) {
+				verdict <- "bad-announce"
+				return
+			}
+			buf := make([]byte, 1<<16)
+			for i, n := range lens {
+				h := refHeader(v, int(n))
+				gh := make([]byte, len(h))
+				if _, err := io.ReadFull(rd, gh); err != nil || string(gh) != string(h) {
+					verdict <- fmt.Sprintf("bad-header@msg%d:%x", i, gh)
+					return
+				}
+				for off := int64(0); off < n; {
+					k := int64(len(buf))
+					if k > n-off {
+						k = n - off
+					}
+					if _, err := io.ReadFull(rd, buf[:k]); err != nil {
+						verdict <- fmt.Sprintf("short@msg%d+%d", i, off)
+						return
+					}
+					if !patternOK(buf[:k], off, uint64(n)) {
+						verdict <- fmt.Sprintf("payload-changed@msg%d+%d", i, off)
+						return
+					}
+					off += k
+				}
+			}
+			if _, err := rd.ReadByte(); err != io.EOF {
+				verdict <- "trailing-bytes"
+				return
+			}
+			verdict <- "ok"
+		}()
+		res := withTimeout(300*time.Second, func() string {
+			m, err := mode.New(variantOf(v), c)
+			if err != nil {
+				return "E"
+			}
+			for _, n := range lens {
+				msg := make([]byte, n)
+				pattern(msg, 0, uint64(n))
+				if err := m.WriteMsg(msg); err != nil {
+					return "E"
+				}
+			}
+			return ""
+		})
+		c.Close()
+		var vd string
+		select {
+		case vd = <-verdict:
+		case <-time.After(300 * time.Second):
+			vd = "HANG"
+		}
+		kill(srv)
+		if res != "" {
+			return res
+		}
+		return vd
+	}()
+	runtime.GC()
+
+	ctx, cancel := context.WithCancel(context.Background())
+	defer cancel()
+	c, err := transport.NewTCP(transport.TCPConnConfig{Ctx: ctx, Host: p.addr})
+	if err != nil {
+		return "w:" + w + "|r:DIAL-ERROR"
+	}
+	srv := p.accept()
+	stop := make(chan struct{})
+	var wg sync.WaitGroup
+	wg.Add(1)
+	go func() {
+		defer wg.Done()
+		rfd := p.readerFD(srv.RemoteAddr().(*net.TCPAddr).Port)
+		buf := make([]byte, 1<<18)
+		pending := append([]byte{}, refAnnounce(v)...) // bytes that must go out before the next payload block
+		send := func(b []byte) bool {
+			// cut b into random segments
+			for len(b) > 0 {
+				k := 1 + r.Intn(len(buf))
+				if r.Intn(4) == 0 {
+					k = 1 + r.Intn(16)
+				}
+				if k > len(b) {
+					k = len(b)
+				}
+				if _, err := srv.Write(b[:k]); err != nil {
+					return false
+				}
+				p.barrier(srv, rfd, stop)
+				b = b[k:]
+			}
+			return true
+		}
+		for _, n := range lens {
+			pending = append(pending, refHeader(v, int(n))...)
+			for off := int64(0); off < n || len(pending) > 0; {
+				k := int64(len(buf) - len(pending))
+				if k > n-off {
+					k = n - off
+				}
+				blk := append(pending, make([]byte, k)...)
+				pattern(blk[len(pending):], off, uint64(n))
+				pending = nil
+				if !send(blk) {
+					return
+				}
+				off += k
+			}
+		}
+		if len(pending) > 0 && !send(pending) {
+			return
+		}
+		srv.CloseWrite()
+	}()
+	var total int64
+	for _, n := range lens {
+		total += n
+	}
+	res := withTimeout(120*time.Second+time.Duration(total/1000)*time.Microsecond*50, func() string {
+		m, err := mode.Detect(c)
+		if err != nil {
+			return "-|0:|" + errKind(err)
+		}
+		vv := "?"
+		if x, err := mode.GetVariant(m); err == nil {
+			if x == mode.Abridged {
+				vv = "A"
+			} else if x == mode.Intermediate {
+				vv = "I"
+			}
+		}
+		var ls []int64
+		var oks []bool
+		for {
+			msg, err := m.ReadMsg()
+			if err != nil {
+				return showBig(vv, ls, oks, errKind(err))
+			}
+			ls = append(ls, int64(len(msg)))
+			oks = append(oks, patternOK(msg, 0, uint64(len(msg))))
+			msg = nil
+			if len(ls) > len(lens)+2 {
+				return showBig(vv, ls, oks, "RUNAWAY")
+			}
+		}
+	})
+	close(stop)
+	kill(srv)
+	wg.Wait()
+	c.Close()
+	runtime.GC()
+	return "w:" + w + "|r:" + res
+}
+
+func expectB(v string, lens []int64) string {
+	oks := make([]bool, len(lens))
+	for i := range oks {
+		oks[i] = true
+	}
+	return "w:ok|r:" + showBig(v, lens, oks, "EOF")
+}
+
+// ---- hostile length fields, in a child process with a limited address space
+
+func heapAllocs() uint64 {
+	s := []metrics.Sample{{Name: "/gc/heap/allocs:bytes"}}
+	metrics.Read(s)
+	if s[0].Value.Kind() == metrics.KindUint64 {
+		return s[0].Value.Uint64()
+	}
+	return 0
+}
+
+func memAvailableMB() int {
+	b, err := os.ReadFile("/proc/meminfo")
+	if err != nil {
+		return 0
+	}
+	for _, l := range strings.Split(string(b), "\n") {
+		if strings.HasPrefix(l, "MemAvailable:") {
+			f := strings.Fields(l)
+			if len(f) >= 2 {
+				n, _ := strconv.Atoi(f[1])
+				return n >> 10
+			}
+		}
+	}
+	return 0
+}
+
+func vmHWM() int {
+	b, err := os.ReadFile("/proc/self/status")
+	if err != nil {
+		return -1
+	}
+	for _, l := range strings.Split(string(b), "\n") {
+		if strings.HasPrefix(l, "VmHWM:") {
+			f := strings.Fields(l)
+			if len(f) >= 2 {
+				n, _ := strconv.Atoi(f[1])
+				return n
+			}
+		}
+	}
+	return -1
+}
+
+// hostileChild: RLIMIT_AS = limitMB, then the ordinary reader on a stream whose last header announces far
+// more than follows.  Prints RESULT \t <delivery> \t <heap bytes allocated during the reads> \t <VmHWM kB>.
+func hostileChild(streamHex string, limitMB int) {
+	lim := syscall.Rlimit{Cur: uint64(limitMB) << 20, Max: uint64(limitMB) << 20}
+	if err := syscall.Setrlimit(syscall.RLIMIT_AS, &lim); err != nil {
+		fmt.Println("RESULT\tSETRLIMIT-FAILED\t0\t0")
+		return
+	}
+	p := newPeer()
+	a0 := heapAllocs()
+	res := p.runR(vc.UnHex(streamHex), nil, false)
+	fmt.Printf("RESULT\t%s\t%d\t%d\n", res, heapAllocs()-a0, vmHWM())
+}
+
+type hostileRec struct {
+	Mode        string `json:"mode"`
+	Announced   int64  `json:"announced_bytes"`
+	InputBytes  int    `json:"input_bytes"`
+	Tail        int    `json:"bytes_after_header"`
+	LimitMB     int    `json:"rlimit_as_mb"`
+	Outcome     string `json:"outcome"` // delivery string, or "fatal error: out of memory", or "crash: ..."
+	HeapAllocs  int64  `json:"heap_bytes_allocated"`
+	PeakRSSkB   int    `json:"peak_rss_kb"`
+	StreamHex   string `json:"stream_hex"`
+	survived    bool
+	deliveryStr string
+}
+
+func runHostile(stream []byte, limitMB int) (rec hostileRec) {
+	rec.StreamHex = vc.Hex(stream)
+	rec.InputBytes = len(stream)
+	rec.LimitMB = limitMB
+	cmd := exec.Command(os.Args[0], "hostile", vc.Hex(stream), strconv.Itoa(limitMB))
+	cmd.Env = append(os.Environ(), "GOMAXPROCS=2")
+	var errb strings.Builder
+	cmd.Stderr = &errb
+	done := make(chan struct{})
+	var out []byte
+	var err error
+	go func() { out, err = cmd.Output(); close(done) }()
+	select {
+	case <-done:
+	case <-time.After(60 * time.Second):
+		if cmd.Process != nil {
+			cmd.Process.Kill()
+		}
+		<-done
+		rec.Outcome = "child did not finish in 60 s"
+		return
+	}
+	for _, l := range strings.Split(string(out), "\n") {
+		f := strings.Split(l, "\t")
+		if len(f) == 4 && f[0] == "RESULT" {
+			rec.Outcome = f[1]
+			rec.deliveryStr = f[1]
+			rec.survived = true
+			rec.HeapAllocs, _ = strconv.ParseInt(f[2], 10, 64)
+			rec.PeakRSSkB, _ = strconv.Atoi(f[3])
+			return
+		}
+	}
+	if strings.Contains(errb.String(), "out of memory") {
+		rec.Outcome = "fatal error: out of memory (the process dies, no error is returned)"
+	} else {
+		rec.Outcome = fmt.Sprintf("crash: %v %s", err, strings.SplitN(errb.String(), "\n", 2)[0])
+	}
+	return
+}
+
+// ---- read deadline and cancellation (outside the model: recorded, and checked for silent corruption only)
+
+type deadlineRec struct {
+	Scenario string   `json:"scenario"`
+	Mode     string   `json:"mode"`
+	Reads    []string `json:"reads"` // what each successive ReadMsg call gave
+	Corrupt  bool     `json:"delivered_something_never_sent"`
+	Note     string   `json:"note"`
+}
+
+// runD: scenario "deadline-midframe": Timeout 150 ms, the peer stalls 500 ms in the middle of a frame and then
+// continues; "deadline-idle": the stall is between frames; "cancel-midframe": the context is cancelled while the
+// reader waits for the rest of a frame.  Each ReadMsg call gets a 1.5 s watchdog.
+func (p *peer) runD(scenario, v string, r *vc.Rng) deadlineRec {
+	rec := deadlineRec{Scenario: scenario, Mode: v}
+	ctx, cancel := context.WithCancel(context.Background())
+	defer cancel()
+	cfg := transport.TCPConnConfig{Ctx: ctx, Host: p.addr}
+	if scenario != "cancel-midframe" {
+		cfg.Timeout = 150 * time.Millisecond
+	}
+	t, err := transport.NewTransport(informator{}, cfg, variantOf(v))
+	if err != nil {
+		rec.Note = "dial error"
+		return rec
+	}
+	srv := p.accept()
+	ann := make([]byte, len(refAnnounce(v)))
+	srv.SetReadDeadline(time.Now().Add(5 * time.Second))
+	io.ReadFull(srv, ann)
+	e1 := envelope(int64(r.U64()>>3<<2)|1, r.Bytes(40))
+	e2 := envelope(int64(r.U64()>>3<<2)|1, r.Bytes(24))
+	f1, f2 := refFrames(v, [][]byte{e1}), refFrames(v, [][]byte{e2})
+	go func() {
+		switch scenario {
+		case "deadline-midframe":
+			srv.Write(f1[:len(f1)/2])
+			time.Sleep(500 * time.Millisecond)
+			srv.Write(f1[len(f1)/2:])
+		case "deadline-idle":
+			time.Sleep(500 * time.Millisecond)
+			srv.Write(f1)
+		case "cancel-midframe":
+			srv.Write(f1[:len(f1)/2])
+			time.Sleep(150 * time.Millisecond)
+			cancel()
+			time.Sleep(150 * time.Millisecond)
+			srv.Write(f1[len(f1)/2:])
+		}
+		srv.Write(f2)
+		srv.CloseWrite()
+	}()
+	for i := 0; i < 3; i++ {
+		got := withTimeout(1500*time.Millisecond, func() string {
+			msg, err := t.ReadMsg()
+			switch {
+			case err == nil:
+				if m, ok := msg.(*messages.Unencrypted); ok {
+					e := envelope(m.MsgID, m.Msg)
+					if string(e) == string(e1) {
+						return "frame1"
+					}
+					if string(e) == string(e2) {
+						return "frame2"
+					}
+					return "CORRUPT:" + vc.Hex(e)
+				}
+				return fmt.Sprintf("CORRUPT:%T", msg)
+			case err == io.EOF:
+				return "EOF"
+			case err == context.Canceled:
+				return "context.Canceled (unwrapped)"
+			default:
+				if _, ok := err.(transport.ErrCode); ok {
+					return "CORRUPT:code"
+				}
+				if parserRejected(err) {
+					return "CORRUPT:parser rejected a payload"
+				}
+				return "error (other)"
+			}
+		})
+		if got == "HANG" {
+			got = "blocks (no return within 1.5 s)"
+		}
+		rec.Reads = append(rec.Reads, got)
+		if strings.HasPrefix(got, "CORRUPT") {
+			rec.Corrupt = true
+		}
+		if strings.HasPrefix(got, "blocks") || got == "EOF" {
+			break
+		}
+	}
+	kill(srv)
+	t.Close()
+	return rec
 }
 
 // byte pipe for mode-level write cases
@@ -567,18 +1162,27 @@ func (p *peer) selftest(stream []byte, cuts []int) bool {
 // ------------------------------------------------------------------ case generation
 
 type job struct {
-	kind    string // R T F W A S(selftest)
-	v       string
-	stream  []byte
-	cuts    []int
-	barrier bool
-	msgs    [][]byte
-	expect  string
-	class   string
+	kind     string // R T F W A S(selftest)
+	v        string
+	stream   []byte
+	cuts     []int
+	barrier  bool
+	msgs     [][]byte
+	expect   string
+	class    string
+	lens     []int64  // H (one length), B (message lengths)
+	unparsed [][]byte // T: payloads the message parser is expected to refuse (compared as "P")
+	limitMB  int      // X
+	scenario string   // D
+	rng      *vc.Rng
 	// results
-	impl string
-	ann  string
-	ok   bool
+	impl    string
+	ann     string
+	ok      bool
+	bfail   int  // barriers that gave up while this case ran
+	retried bool // the case was run again alone (barrier give-up / HANG confirmation)
+	hostile hostileRec
+	dl      deadlineRec
 }
 
 type gen struct {
@@ -588,11 +1192,12 @@ type gen struct {
 	stat map[string]int
 	tier string
 
-	fixedLimit int
+	fixedLimit  int
+	unsegmented []string
 }
 
 func (g *gen) add(j *job) {
-	key := j.kind + "|" + j.v + "|" + string(j.stream) + "|" + sizesText(j.cuts) + "|" + hexList(j.msgs)
+	key := j.kind + "|" + j.v + "|" + string(j.stream) + "|" + sizesText(j.cuts) + "|" + hexList(j.msgs) + "|" + fmt.Sprint(j.lens, j.scenario, j.class == "transport-writemsg")
 	if j.kind != "S" {
 		if g.seen[key] {
 			return
@@ -1056,6 +1661,169 @@ func (g *gen) generate() {
 		g.add(&job{kind: "R", v: "-", stream: s, expect: "?", class: "garbage/coalesced"})
 	}
 
+	// --- many frames back to back
+	for _, v := range []string{"A", "I"} {
+		var many [][]int
+		l64 := make([]int, 64)
+		for i := range l64 {
+			l64[i] = 4
+		}
+		l1000 := make([]int, 1000)
+		for i := range l1000 {
+			l1000[i] = 4 * g.r.Intn(3)
+		}
+		l200 := make([]int, 200)
+		for i := range l200 {
+			l200[i] = 4 * g.r.Intn(40)
+		}
+		many = append(many, l64, l1000, l200)
+		for _, l := range many {
+			msgs := g.msgList(l)
+			g.add(&job{kind: "F", v: v, msgs: msgs, class: "writer-tcp"})
+			stream := refWire(v, msgs)
+			g.segmentations("R", "-", stream, frameOffsets(v, true, msgs), showDelivery(v, msgs, "EOF"), "many-frames", oneByteLimit, 2)
+		}
+	}
+
+	// --- transport level: payloads of 0/8/12/16 bytes and encrypted-looking packets (the parser behind
+	//     ReadMsg refuses them; what C08 says is that they are NOT error codes and that the connection stays
+	//     aligned behind them), 64 and 1000 frames back to back
+	{
+		enc := func(n int) []byte { // first 8 bytes non-zero: looks like an encrypted packet
+			b := g.msg(n)
+			if n >= 8 {
+				b[0] |= 1
+			}
+			return b
+		}
+		zero := func(n int) []byte { return make([]byte, n) }
+		type item struct {
+			data     []byte
+			expect   string
+			unparsed bool
+		}
+		bad := func(b []byte) item { return item{b, "P", true} }
+		code := func(c int64) item { e := mkCode(c); return item{e.data, e.expect, false} }
+		data := func(n int) item { e := mkData(n); return item{e.data, e.expect, false} }
+		var ilists [][]item
+		for _, b := range [][]byte{zero(0), zero(8), enc(8), zero(12), enc(12), zero(16), enc(16), enc(20), enc(24), enc(40), enc(1024), zero(40)} {
+			ilists = append(ilists, []item{bad(b), code(-404)}, []item{code(-429), bad(b), data(8), bad(b)})
+		}
+		l64 := []item{}
+		for i := 0; i < 64; i++ {
+			l64 = append(l64, code(int64(-400-i)))
+		}
+		l1000 := []item{}
+		for i := 0; i < 1000; i++ {
+			switch g.r.Intn(5) {
+			case 0:
+				l1000 = append(l1000, code(int64(int32(g.r.U64()))))
+			case 1:
+				l1000 = append(l1000, bad(enc(8+4*g.r.Intn(4))))
+			case 2:
+				l1000 = append(l1000, bad(zero(4*g.r.Intn(4)+8)))
+			default:
+				l1000 = append(l1000, data(4*g.r.Intn(5)))
+			}
+		}
+		ilists = append(ilists, l64, l1000)
+		for _, v := range []string{"A", "I"} {
+			for _, l := range ilists {
+				var msgs, unp [][]byte
+				var exps []string
+				for _, e := range l {
+					msgs = append(msgs, e.data)
+					exps = append(exps, e.expect)
+					if e.unparsed {
+						unp = append(unp, e.data)
+					}
+				}
+				stream := refFrames(v, msgs)
+				exp := fmt.Sprintf("%d:%s|EOF", len(exps), strings.Join(exps, ","))
+				offs := frameOffsets(v, false, msgs)
+				for _, cuts := range [][]int{nil, cutsAt(len(stream), offs, 0), cutsAt(len(stream), offs, 1), g.randomCuts(len(stream), 1+g.r.Intn(12))} {
+					if len(cuts) <= 4000 {
+						g.add(&job{kind: "T", v: v, stream: stream, cuts: cuts, barrier: cuts != nil, expect: exp, class: "unparsed-payloads", unparsed: unp})
+					}
+				}
+				if len(stream) <= 60 {
+					g.add(&job{kind: "T", v: v, stream: stream, cuts: ones(len(stream)), barrier: true, expect: exp, class: "unparsed-payloads", unparsed: unp})
+				}
+			}
+		}
+	}
+
+	// --- the write direction through transport.WriteMsg (unencrypted messages)
+	for _, v := range []string{"A", "I"} {
+		for _, l := range [][]int{{0}, {4}, {40}, {484}, {488}, {492}, {0, 4, 488, 1000}, {65536}, {3}, {4, 6}} {
+			var envs [][]byte
+			for _, n := range l {
+				envs = append(envs, envelope(int64(g.r.U64()>>3<<2)|1, g.msg(n)))
+			}
+			g.add(&job{kind: "F", v: v, msgs: envs, class: "transport-writemsg"})
+		}
+	}
+
+	// --- lengths at the far end of what the formats carry: header-only write cases (H), end-to-end (B)
+	{
+		hl := map[string][]int64{
+			"A": {4 << 22, 4<<24 - 16, 4<<24 - 12, 4<<24 - 8, 4<<24 - 4, 4 << 24, 4<<24 + 4, 4<<24 + 8, 4<<24 + 12, 4<<24 + 16, 4<<24 - 2},
+			"I": {1 << 24, 1<<24 + 3, 1<<26 + 1},
+		}
+		bl := map[string][][]int64{"A": {{4 << 22}}, "I": {{1<<24 + 3}}}
+		if thorough {
+			hl["A"] = append(hl["A"], 4<<24+4*127, 4<<25)
+			bl["A"] = append(bl["A"], []int64{4<<24 - 4}, []int64{4, 4<<24 - 4, 0, 508})
+			bl["I"] = append(bl["I"], []int64{1 << 24}, []int64{1<<26 + 1, 5})
+			if memAvailableMB() >= 16<<10 {
+				// a 2^31-byte message is held three times (writer's copy, ReadMsg's buffer, go-dry's buffer)
+				hl["I"] = append(hl["I"], 1<<31, 1<<32-1, 1<<32, 1<<32+4)
+				bl["I"] = append(bl["I"], []int64{1 << 31})
+			} else {
+				g.stat["skipped:messages-of-2^31-bytes-and-more(less-than-16GiB-available)"]++
+			}
+		}
+		for _, v := range []string{"A", "I"} {
+			for _, n := range hl[v] {
+				g.add(&job{kind: "H", v: v, lens: []int64{n}, class: "huge-header"})
+			}
+			for _, l := range bl[v] {
+				for _, n := range l {
+					g.add(&job{kind: "H", v: v, lens: []int64{n}, class: "huge-header"})
+				}
+				g.add(&job{kind: "B", v: v, lens: l, expect: expectB(v, l), class: "huge-end-to-end", rng: g.r.Fork(uint64(len(g.jobs)))})
+			}
+		}
+	}
+
+	// --- hostile length fields: a header announcing 2^20 .. 2^32-1 bytes, then 0..16 bytes, then FIN; each in a
+	//     child process whose address space is limited to 3 GB
+	{
+		tails := []int{0, 16}
+		if thorough {
+			tails = []int{0, 1, 16}
+		}
+		for _, t := range tails {
+			for _, n := range []int64{1 << 20, 1 << 24, 1 << 28, 1 << 30, 1 << 31, 1<<32 - 1} {
+				s := append(refAnnounce("I"), byte(n), byte(n>>8), byte(n>>16), byte(n>>24))
+				s = append(s, g.r.Bytes(t)...)
+				g.add(&job{kind: "X", v: "I", stream: s, lens: []int64{n, int64(t)}, limitMB: 3072, class: "hostile-length"})
+			}
+			for _, w := range []int64{1 << 18, 1 << 22, 1<<24 - 1} {
+				s := append(refAnnounce("A"), 0x7f, byte(w), byte(w>>8), byte(w>>16))
+				s = append(s, g.r.Bytes(t)...)
+				g.add(&job{kind: "X", v: "A", stream: s, lens: []int64{4 * w, int64(t)}, limitMB: 3072, class: "hostile-length"})
+			}
+		}
+	}
+
+	// --- read deadline / cancellation (outside the model)
+	for _, sc := range []string{"deadline-midframe", "deadline-idle", "cancel-midframe"} {
+		for _, v := range []string{"A", "I"} {
+			g.add(&job{kind: "D", v: v, scenario: sc, class: "deadline", rng: g.r.Fork(uint64(len(g.jobs)))})
+		}
+	}
+
 	// --- validation of the segmenting mechanism itself
 	ns := 150
 	if thorough {
@@ -1070,6 +1838,45 @@ func (g *gen) generate() {
 	}
 }
 
+// exec runs one case on this peer
+func (p *peer) exec(j *job) {
+	p.cur = j.kind + " " + j.class + " " + strconv.Itoa(len(j.stream)) + " " + sizesText(j.cuts)
+	if len(p.cur) > 150 {
+		p.cur = p.cur[:150]
+	}
+	p.caseFail = 0
+	switch j.kind {
+	case "A":
+		j.impl, _ = runW(j.v, nil)
+	case "W":
+		_, j.impl = runW(j.v, j.msgs[0])
+	case "F":
+		if j.class == "transport-writemsg" {
+			j.impl = p.runFT(j.v, j.msgs)
+		} else {
+			j.impl = p.runF(j.v, j.msgs)
+		}
+	case "R":
+		j.impl = p.runR(j.stream, j.cuts, j.barrier)
+	case "T":
+		j.impl, j.ann = p.runT(j.v, j.stream, j.cuts, j.barrier)
+	case "S":
+		j.ok = p.selftest(j.stream, j.cuts)
+	case "H":
+		j.impl = runH(j.v, j.lens[0])
+	case "B":
+		j.impl = p.runB(j.v, j.lens, j.rng)
+	case "X":
+		j.hostile = runHostile(j.stream, j.limitMB)
+	case "D":
+		j.dl = p.runD(j.scenario, j.v, j.rng)
+	}
+	j.bfail = p.caseFail
+}
+
+// heavy: cases that allocate a lot; they run one after the other on one worker
+func heavy(j *job) bool { return j.kind == "H" || j.kind == "B" }
+
 func (g *gen) run(nworkers int) (timeouts, barriers int) {
 	var wg sync.WaitGroup
 	ch := make(chan *job, 256)
@@ -1080,45 +1887,87 @@ func (g *gen) run(nworkers int) (timeouts, barriers int) {
 		go func(p *peer) {
 			defer wg.Done()
 			for j := range ch {
-				p.cur = j.kind + " " + j.class + " " + strconv.Itoa(len(j.stream)) + " " + sizesText(j.cuts)
-				if len(p.cur) > 150 {
-					p.cur = p.cur[:150]
-				}
-				switch j.kind {
-				case "A":
-					j.impl, _ = runW(j.v, nil)
-				case "W":
-					_, j.impl = runW(j.v, j.msgs[0])
-				case "F":
-					j.impl = p.runF(j.v, j.msgs)
-				case "R":
-					j.impl = p.runR(j.stream, j.cuts, j.barrier)
-				case "T":
-					j.impl, j.ann = p.runT(j.v, j.stream, j.cuts, j.barrier)
-				case "S":
-					j.ok = p.selftest(j.stream, j.cuts)
-				}
+				p.exec(j)
 			}
 		}(peers[w])
 	}
+	// the memory-heavy cases one after the other on a worker of their own
+	hp := newPeer()
+	wg.Add(1)
+	go func() {
+		defer wg.Done()
+		for _, j := range g.jobs {
+			if heavy(j) {
+				hp.exec(j)
+			}
+		}
+	}()
 	// the few very long jobs first, so that they overlap with everything else
 	for _, j := range g.jobs {
-		if len(j.cuts) > 100000 {
+		if len(j.cuts) > 100000 && !heavy(j) {
 			ch <- j
 		}
 	}
 	for _, j := range g.jobs {
-		if len(j.cuts) <= 100000 {
+		if len(j.cuts) <= 100000 && !heavy(j) {
 			ch <- j
 		}
 	}
 	close(ch)
 	wg.Wait()
+	peers = append(peers, hp)
 	for _, p := range peers {
 		timeouts += p.timeouts
 		barriers += p.barriers
 		p.ln.Close()
 	}
+
+	// Second pass, one case at a time on an otherwise idle process:
+	//  - a case in which a barrier gave up was not fed in the segmentation it names: run it again with a
+	//    15 s give-up per barrier; if a barrier still gives up the case is UNSEGMENTED (harness trouble, exit 4);
+	//  - a HANG verdict is confirmed with four times the time budget before it is reported.
+	solo := newPeer()
+	solo.giveUp = 15 * time.Second
+	hangScale = 4
+	for _, j := range g.jobs {
+		if len(g.unsegmented) >= 10 {
+			break // the mechanism does not work here at all: no point in trying the other cases one by one
+		}
+		hang := strings.Contains(j.impl, "HANG")
+		badSelf := j.kind == "S" && !j.ok
+		if j.bfail == 0 && !hang && !badSelf {
+			continue
+		}
+		if hang && g.stat["second_pass:hang_confirmed"] >= 3 {
+			// three HANG verdicts were already confirmed alone with four times the budget: the others are reported
+			// as they are instead of spending minutes on each
+			g.stat["second_pass:hang_not_rerun"]++
+			continue
+		}
+		g.stat["second_pass:cases"]++
+		if hang {
+			g.stat["second_pass:hang_verdicts"]++
+		} else if j.bfail > 0 {
+			g.stat["second_pass:barrier_gave_up"]++
+		}
+		if badSelf {
+			g.stat["second_pass:selftest_mismatch"]++
+		}
+		j.retried = true
+		solo.exec(j)
+		if strings.Contains(j.impl, "HANG") {
+			// the reader stopped consuming: barriers behind that point give up because of the reader, not because
+			// of the harness; the case is reported as HANG
+			if hang {
+				g.stat["second_pass:hang_confirmed"]++
+			}
+		} else if j.bfail > 0 || (j.kind == "S" && !j.ok) {
+			g.stat["second_pass:unsegmented"]++
+			g.unsegmented = append(g.unsegmented, solo.cur)
+		}
+	}
+	hangScale = 1
+	solo.ln.Close()
 	return
 }
 
@@ -1147,6 +1996,11 @@ func main() {
 		t0 := time.Now()
 		timeouts, barriers := g.run(nw)
 		out := vc.Create(outPath)
+		var extra struct {
+			Hostile     []hostileRec  `json:"hostile_length_allocation"`
+			Deadline    []deadlineRec `json:"read_deadline_behaviour"`
+			Unsegmented []string      `json:"unsegmented_cases"`
+		}
 		selfOK, selfBad := 0, 0
 		for i, j := range g.jobs {
 			id := strconv.Itoa(i + 1)
@@ -1156,11 +2010,42 @@ func main() {
 			case "W":
 				out.Line("W", id, j.v, vc.Hex(j.msgs[0]), j.impl)
 			case "F":
-				out.Line("F", id, j.v, hexList(j.msgs), vc.Hex(refWire(j.v, j.msgs)), j.impl)
+				out.Line("F", id, j.v, hexList(j.msgs), vc.Hex(refWire(j.v, j.msgs)), j.impl, j.class)
 			case "R":
 				out.Line("R", id, vc.Hex(j.stream), sizesText(j.cuts), j.impl, same(j.expect, j.impl), j.class)
 			case "T":
-				out.Line("T", id, j.v, vc.Hex(j.stream), sizesText(j.cuts), j.impl, same(j.expect, j.impl), j.class, j.ann)
+				unp := "none"
+				if len(j.unparsed) > 0 {
+					seen := map[string]bool{}
+					var l []string
+					for _, u := range j.unparsed {
+						if h := vc.Hex(u); !seen[h] {
+							seen[h] = true
+							l = append(l, h)
+						}
+					}
+					unp = strings.Join(l, ",")
+				}
+				out.Line("T", id, j.v, vc.Hex(j.stream), sizesText(j.cuts), j.impl, same(j.expect, j.impl), j.class, j.ann, unp)
+			case "H":
+				out.Line("H", id, j.v, strconv.FormatInt(j.lens[0], 10), j.impl, "O:"+vc.Hex(refHeader(j.v, int(j.lens[0]))))
+			case "B":
+				var ls []string
+				for _, n := range j.lens {
+					ls = append(ls, strconv.FormatInt(n, 10))
+				}
+				out.Line("B", id, j.v, strings.Join(ls, ","), j.impl, j.expect, j.class)
+			case "X":
+				j.hostile.Mode = j.v
+				j.hostile.Announced = j.lens[0]
+				j.hostile.Tail = int(j.lens[1])
+				extra.Hostile = append(extra.Hostile, j.hostile)
+				if j.hostile.survived {
+					// the child lived: its delivery goes through the ordinary comparison with the model
+					out.Line("R", id, vc.Hex(j.stream), "-", j.hostile.deliveryStr, "?", "hostile-length/coalesced")
+				}
+			case "D":
+				extra.Deadline = append(extra.Deadline, j.dl)
 			case "S":
 				if j.ok {
 					selfOK++
@@ -1183,6 +2068,18 @@ func main() {
 		fmt.Printf("stat\tbarriers\t%d\n", barriers)
 		fmt.Printf("stat\tbarrier_timeouts\t%d\n", timeouts)
 		fmt.Printf("stat\timpl_run_ms\t%d\n", time.Since(t0).Milliseconds())
+		extra.Unsegmented = g.unsegmented
+		eb, _ := json.MarshalIndent(extra, "", " ")
+		os.WriteFile(outPath+".extra.json", eb, 0o644)
+		if len(g.unsegmented) > 0 {
+			// some case could not be fed in the segmentation it names even alone with a 15 s give-up:
+			// the harness cannot exercise what it claims - no verdict
+			fmt.Fprintf(os.Stderr, "C08 harness: %d case(s) could not be segmented as requested, e.g. %s\n", len(g.unsegmented), g.unsegmented[0])
+			os.Exit(4)
+		}
+	case "hostile":
+		mb, _ := strconv.Atoi(os.Args[3])
+		hostileChild(os.Args[2], mb)
 	case "one":
 		p := newPeer()
 		// an argument "@path" is read from that file (hex of a 1 MB stream does not fit an argv entry)
@@ -1212,6 +2109,18 @@ func main() {
 			fmt.Println(r + "\t" + ann)
 		case "F":
 			fmt.Println(p.runF(arg(3), unhexList(arg(4))))
+		case "FT":
+			fmt.Println(p.runFT(arg(3), unhexList(arg(4))))
+		case "H":
+			n, _ := strconv.ParseInt(arg(4), 10, 64)
+			fmt.Println(runH(arg(3), n))
+		case "B":
+			var lens []int64
+			for _, x := range strings.Split(arg(4), ",") {
+				n, _ := strconv.ParseInt(x, 10, 64)
+				lens = append(lens, n)
+			}
+			fmt.Println(p.runB(arg(3), lens, vc.NewRng(vc.Seed())))
 		}
 	default:
 		os.Exit(3)
